@@ -606,15 +606,6 @@ func (g *gen) genRenew() {
 	kind := g.r.Intn(5) // 0,1: renew3  2,3: renew2  4: form2
 	fcVariants := []string{"filesize", "filesize1", "root", "revnum1", "wend_small", "wstart_small", "wstart_huge", "hugeext", "wend_huge", "payout_huge",
 		"payout_huge_both", "payout_zero", "burn", "void_huge", "addr", "addr_missed", "void", "unlockhash", "outs0", "valid1", "valid3", "missed2", "missed4"}
-	if kind == 4 {
-		// a formation does not bound WindowEnd from above: wend_huge is a valid contract there
-		for i, v := range fcVariants {
-			if v == "wend_huge" {
-				fcVariants = append(append([]string(nil), fcVariants[:i]...), fcVariants[i+1:]...)
-				break
-			}
-		}
-	}
 	clr3 := []string{"unknown", "revnum", "filesize", "root", "window", "uc", "uckeys0", "unlockhash", "outs0", "outs1", "outs3", "missed3", "valid1", "valid3", "more", "steal", "sumovf", "differ", "addr"}
 	clr2 := []string{"under", "outs0", "outs1", "outs3", "more", "steal", "sumovf"}
 	rsigs := []string{"bad", "len0", "len1", "len63", "len65", "parent", "pki", "covered", "covered2", "covered0", "covered9"}
